@@ -77,7 +77,7 @@ func (o *Obligation) Script() string {
 	ds := defs.String()
 	quantified := strings.Contains(bs, "(forall ") || strings.Contains(bs, "(exists ") || strings.Contains(ds, "(forall ") || strings.Contains(ds, "(exists ") ||
 		// functions that exist only through their axioms (counting functions, witness markers)
-		strings.Contains(bs, "(cnt_") || strings.Contains(ds, "(cnt_")
+		strings.Contains(bs, "(cnt_") || strings.Contains(ds, "(cnt_") || strings.Contains(bs, "(fsum ")
 	b.WriteString(ex.slAtDecls(quantified))
 	b.WriteString(ds)
 	if quantified {
